@@ -7,6 +7,7 @@ import (
 	"fmt"
 	"net/netip"
 	"strconv"
+	"sync"
 
 	zz "github.com/AliyunContainerService/terway/internal/zzverif"
 	apiErr "github.com/AliyunContainerService/terway/pkg/aliyun/client/errors"
@@ -64,12 +65,26 @@ func ZZ_C07_alloc_faults() {
 			}
 		}
 	}
+	// wake-up discipline: the dispose worker sleeps on the pool's condition
+	// variable and nothing else signals a slot that is being deleted (sync and
+	// Dispose return early on it, Allocate refuses it), so the worker that
+	// marks the interface for deletion has to signal before it sleeps or
+	// exits - otherwise the interface the cloud created is never handed back
+	deleting0 := l.status == statusDeleting
+	signalled := false
+	zz.Override("(*sync.Cond).Broadcast", func(c *sync.Cond) {
+		if l.status == statusDeleting && l.eni != nil {
+			signalled = true
+		}
+	})
 	zz.OnYield(func() {
 		zz.Reach("c07-alloc-parked")
+		zz.Assert(zz.Implies(!deleting0 && l.status == statusDeleting && l.eni != nil, signalled), "marking the interface for deletion wakes the dispose worker before the allocation worker sleeps")
 		zz.Assume(false)
 	})
 	l.factoryAllocWorker(ctx)
 	zz.OnYield(nil)
+	zz.Assert(zz.Implies(!deleting0 && l.status == statusDeleting && l.eni != nil, signalled), "marking the interface for deletion wakes the dispose worker")
 	zz.Assert(zzTracked(l, f), "every address the cloud assigned is tracked by the pool, even when the call returned an error")
 	zz.Assert(zz.Implies(f.eniLive, l.eni != nil), "an interface the cloud created is kept by the pool, even when the call returned an error")
 	zz.Assert(zz.Implies(zz.And(f.eniLive, !hasENI, len(l.ipv4) == 0 && len(f.calls) > 0 && l.status != statusInUse), l.status == statusDeleting), "an interface returned together with an error is marked for deletion")
